@@ -55,6 +55,8 @@ def run(R):
         r5(R, m)
     if R.want("C15.R6"):
         r6(R, m)
+    if R.want("C15.R7"):
+        r7(R, m)
 
 
 def r1(R, m):
@@ -506,3 +508,50 @@ def r5(R, m):
     lp = [l for l in ast.walk(fn) if isinstance(l, ast.For)]
     R.check(lp and not any(is_prange(l) for l in lp), "C15.R5", REL, fn.lineno, "numbapkmerge", "scatter-add loop is a sequential range()",
             "the scatter-add into out[:, labels[k]] runs under prange: members of one merged peak handled by different threads lose updates")
+
+
+# --------------------------------------------------------------------------------------------------
+def r7(R, m):
+    """'no edges' is one of the graphs of the property: a scan whose 2D peaks never overlap gives a pair table of shape (3, 0).
+    pks_table.create allocates every table through shared_numpy_array, and multiprocessing.shared_memory.SharedMemory refuses
+    size 0 (ValueError) - the table cannot even be made, let alone labelled."""
+    R.rule("C15.R7", "the peak / pair tables can be empty: every SharedMemory(create=True, size=...) asks for at least one byte")
+    # premise: a table whose shape depends on the number of pairs
+    cr = m.func("pks_table.create")
+    shares = [c for c in ast.walk(cr) if isinstance(c, ast.Call) and pyfacts.dotted(c.func) == "self.share" and any(k.arg == "shape" for k in c.keywords)]
+    R.shape(len(shares) >= 2, "C15.R7", REL, "pks_table.create", "the tables allocated with self.share(name, shape=..., dtype=...)")
+    datadep = [c for c in shares for k in c.keywords if k.arg == "shape" and isinstance(k.value, ast.Tuple) and any(not isinstance(e, ast.Constant) for e in k.value.elts)]
+    R.shape(len(datadep) >= 1, "C15.R7", REL, "pks_table.create", "a table whose shape comes from the numbers of peaks / pairs")
+    calls = [c for c in ast.walk(m.tree) if isinstance(c, ast.Call) and (pyfacts.dotted(c.func) or "").split(".")[-1] == "SharedMemory"
+             and any(k.arg == "create" and isinstance(k.value, ast.Constant) and k.value.value is True for k in c.keywords)]
+    R.shape(len(calls) >= 1, "C15.R7", REL, "shared_numpy_array.__init__", "the SharedMemory(create=True, size=...) call")
+    for c in calls:
+        sz = [k.value for k in c.keywords if k.arg == "size"]
+        R.shape(len(sz) == 1, "C15.R7", REL, "shared_numpy_array.__init__", "the size keyword of SharedMemory")
+        e = sz[0]
+        fn = m.enclosing_function(c)
+
+        def positive(x):
+            if isinstance(x, ast.Call) and pyfacts.dotted(x.func) == "max":
+                return any((pyfacts.const_int(a) or 0) >= 1 for a in x.args)
+            if isinstance(x, ast.Call) and pyfacts.dotted(x.func) == "int" and x.args:
+                return positive(x.args[0])
+            if isinstance(x, ast.BinOp) and isinstance(x.op, ast.Add):
+                return any((pyfacts.const_int(a) or 0) >= 1 for a in (x.left, x.right))
+            if isinstance(x, ast.BoolOp) and isinstance(x.op, ast.Or):
+                return (pyfacts.const_int(x.values[-1]) or 0) >= 1
+            c_ = pyfacts.const_int(x)
+            return c_ is not None and c_ >= 1
+        if positive(e):
+            R.inst("C15.R7", "SharedMemory size %s is at least 1" % src(e))
+            continue
+        # is it the plain byte count of the array?
+        rs = pyfacts.resolved_src(fn, e, 3, keep=("self",)) if fn is not None else src(e)
+        if "nbytes" in rs or "prod" in rs or "itemsize" in rs:
+            R.check(False, "C15.R7", REL, c.lineno, m.qualname(fn) if fn is not None else "<module>", "SharedMemory(create=True, size=%s)" % src(e),
+                    "the size is the byte count of the array, which is 0 for the (3, 0) pair table of a scan without overlaps (pks_table.create "
+                    "line %d): SharedMemory raises ValueError('size must be a positive number') and pks_table(npk=[(5, 0, 0)]) cannot be created - "
+                    "the 'no edges' graph of the property never reaches the labelling" % datadep[0].lineno)
+        else:
+            R.shape(False, "C15.R7", REL, "shared_numpy_array.__init__", "a size expression that is a byte count or visibly at least 1 (%s)" % src(e))
+    R.floor("C15.R7", 1)
